@@ -82,6 +82,11 @@ func (a *AES128CBC) DecodeFromBytes(data []byte, _ gopacket.DecodeFeedback) erro
 		}
 		v++
 	}
+	if padStart < a.cipher.BlockSize() {
+		// the pad would begin inside the IV
+		return fmt.Errorf("pad of %v bytes does not fit in %v bytes of decrypted data",
+			padBytes, len(data)-a.cipher.BlockSize())
+	}
 	a.BaseLayer.Payload = data[a.cipher.BlockSize():padStart]
 	return nil
 }
